@@ -169,9 +169,18 @@ func (s c04session) run(r *vrng, style int, tcp bool) (req, obs string) {
 		}
 		// let the callers whose replies have arrived take them
 		for _, cl := range callers {
+			// frames are complete here: once the read loop has taken the caller's entry out of the await map the
+			// reply is in its channel
+			c.awaitMu.Lock()
+			_, still := c.awaiting[messageID(cl.id)]
+			c.awaitMu.Unlock()
+			wait := 2 * time.Millisecond
+			if !still {
+				wait = 3 * time.Second
+			}
 			select {
 			case <-cl.done:
-			case <-time.After(2 * time.Millisecond):
+			case <-time.After(wait):
 			}
 		}
 	}
@@ -373,6 +382,8 @@ func TestVerifC04(t *testing.T) {
 			if only != "" && only != tag {
 				continue
 			}
+			// a panic that escapes one of the library's goroutines kills this process: leave the name of the session behind
+			os.WriteFile(os.Getenv("VERIF_OUT")+".cur", []byte(tag), 0o644)
 			req, obs := s.run(rng, v.style, v.tcp)
 			o.line(req+" #"+tag, obs)
 		}
